@@ -5,7 +5,7 @@ namespace PM.C07
 /-- the implementation's PIE / PBKW / PKE schemes are the specification's as soon as the code's
     choices conform (full-width counter, padded RSA-KEM ciphertext, Argon2 parameter handling) -/
 def Conforms (c : BackendCfg) : Prop :=
-  c.ctrBits = 128 ∧ c.kemCtPadded = true ∧ c.argonMemMod1024 = true ∧ c.argonParallel = true ∧
+  c.ctrBits = 128 ∧ c.kemCtPadded = true ∧ c.argonMemMod1024 = false ∧ c.argonParallel = true ∧
   c.pbkwRejectsZeroIter = specCfg.pbkwRejectsZeroIter ∧ c.skChecksPubHalf = true
 
 instance (c : BackendCfg) : Decidable (Conforms c) := by unfold Conforms; exact inferInstance
@@ -62,19 +62,19 @@ theorem pbkw_siblings_v3 (pass salt params : Bytes) (h : fromBe params ≠ 0) :
     (pbkwOf .v3).kdf pass salt params = (pbkwOf .v3lc).kdf pass salt params := by
   simp [pbkwOf, pbkwSchemeOf, Backend.version, pbkdfKdf, h]
 
-/-- where the v4 siblings differ on PBKW parameters (recorded, see DESIGN §7): RustCrypto requires
-    memory to be a multiple of 1024 bytes and honours parallelism; libsodium floors and fixes p = 1.
-    On the common domain they agree: -/
+/-- where the v4 siblings differ on PBKW parameters (recorded as a known finding): RustCrypto honours
+    the parallelism parameter, libsodium's crypto_pwhash fixes p = 1.  (Both round the memory byte
+    count down to whole KiB after the repair of paseto-v2/v4.)  On the common domain they agree: -/
 theorem pbkw_siblings_v4 (pass salt params : Bytes)
-    (hm : fromBe (params.take 8) % 1024 = 0) (hp : fromBe (params.drop 12) = 1)
+    (hp : fromBe (params.drop 12) = 1)
     (hlo : fromBe (params.take 8) ≥ 8192) (hhi : fromBe (params.take 8) / 1024 < 2 ^ 22)
     (ht : fromBe ((params.drop 8).take 4) ≥ 1) :
     argonKdf (cfgOf .v4) pass salt params = argonKdf (cfgOf .v4s) pass salt params := by
-  have c4 : (cfgOf .v4).argonParallel = true ∧ (cfgOf .v4).argonMemMod1024 = true := by decide
+  have c4 : (cfgOf .v4).argonParallel = true ∧ (cfgOf .v4).argonMemMod1024 = false := by decide
   have c4s : (cfgOf .v4s).argonParallel = false := by decide
   unfold argonKdf
-  simp only [c4.1, c4.2, c4s, hp, hm, if_true, Bool.false_eq_true, if_false]
-  rw [if_neg (by omega), if_neg (by omega)]
+  simp only [c4.1, c4.2, c4s, hp, if_true, Bool.false_eq_true, if_false, false_and]
+  rw [if_neg (by omega)]
   simp only [ne_eq, not_true_eq_false, if_false]
   rw [if_neg (by omega)]
 
